@@ -141,8 +141,12 @@ func (e *Executor) poll(ctx context.Context) error {
 
 func (e *Executor) runOnService(ctx context.Context, isRootPlan bool, service string, typName string, keys []interface{}, kind string, selectionSet *graphql.SelectionSet, metadata interface{}, planner *Planner) ([]interface{}, interface{}, error) {
 	// Execute query on specified service
+	// setPlanner replaces the introspection client in this map while requests
+	// are running, so the map is read under the same lock.
+	e.syncer.plannerMu.RLock()
 	vh("executors.read", service)
 	executorClient, ok := e.Executors[service]
+	e.syncer.plannerMu.RUnlock()
 	if !ok {
 		return nil, nil, oops.Errorf("service %s not recognized", service)
 	}
